@@ -1380,10 +1380,18 @@ func (store *KeyStore) destroyRotatedKeyByIndex(path string, index int) error {
 	}
 
 	rotatedKey := rotatedKeyFiles[index-2]
-	err = store.fs.Remove(filepath.Join(oldDir, rotatedKey.Name()))
+	rotatedKeyPath := filepath.Join(oldDir, rotatedKey.Name())
+	err = store.fs.Remove(rotatedKeyPath)
 	if err != nil && !os.IsNotExist(err) {
 		return err
 	}
+
+	// Purge the key and the cached list of this key's files from cache too: a warm cache
+	// would keep handing out the destroyed key, or fail on the file that is no longer there.
+	if cacheName, err := filepath.Rel(store.privateKeyDirectory, rotatedKeyPath); err == nil {
+		store.cache.Add(cacheName, nil)
+	}
+	store.refreshCachedHistoricalFilenames(path)
 
 	return nil
 }
